@@ -54,6 +54,11 @@ def run(ctx):
                         "MIR facts come from rustc nightly mir_promoted (before the coroutine transform)"]
     for cfg in (["cfgA"] if ctx.tier == "quick" else ["cfgA", "cfgB", "cfgC"]):
         run_cfg(ctx, cfg)
+        # a conflict reported by the encoder in a later round sends run_sat round its loop again (restart), i.e. through the
+        # poll at the head of propagate - only the first round of a run may declare it unsolvable directly (rule of C02)
+        import c02
+        tag = "" if cfg == "cfgA" else "@" + cfg
+        ctx.guard("conflict-signal" + tag, c02.conflict_signal, ctx, lib(ctx, cfg), crates(ctx, cfg), tag)
 
 
 def run_cfg(ctx, cfg):
@@ -213,27 +218,7 @@ def run_cfg(ctx, cfg):
     # Err(value) of Result<_, Box<dyn Any>> built directly (cache polls) is covered by rule 1.
 
     # ---- rule 4: results carrying the cancellation channel must be used ------------------
-    n_res = 0
-    for b in crate.bodies:
-        if not (b.key.startswith("resolvo::solver::") or b.key.startswith("resolvo::conflict::")):
-            continue
-        for i, t in b.calls():
-            f = t.get("f")
-            if f is None or "p" in t["dest"]:
-                continue
-            dl = t["dest"]["l"]
-            ty = b.local_ty(dl)
-            if not ty.startswith("std::result::Result<"):
-                continue
-            if not any(ty.rstrip(">").endswith(e) or (", " + e + ">") in ty for e in CANCEL_ERR_TYPES):
-                continue
-            if any(k in ("std::ops::Try::branch", "std::ops::FromResidual::from_residual") for k in callee_keys(f)):
-                continue
-            n_res += 1
-            ok, how = (True, "return") if dl == 0 else result_is_used(b, dl)
-            ctx.ob("result-must-use" + tag, b.key, "result of %s" % strip_generics(f["path"]).split("::")[-1], ok,
-                   where_call(b, i), how)
-    ctx.floor("result-must-use" + tag, "cancellation-carrying Result call sites", n_res, 10)
+    results_used(ctx, crate, tag)
 
     # ---- rule 5: short circuit in encode ---------------------------------------------------
     enc = body_by_key(crate, ENC + "encode", coroutine=True)
@@ -260,6 +245,32 @@ def run_cfg(ctx, cfg):
                             why = "the Break (error) edge of the `?` can reach on_task_result"
             ctx.ob("short-circuit" + tag, enc.key, "?-dominates-on_task_result", ok, where_call(enc, i), why if not ok else
                    "on_task_result only runs on the Continue edge of the `?` applied to the task result")
+
+
+def results_used(ctx, crate, tag, prefixes=("resolvo::solver::", "resolvo::conflict::"), floor=10):
+    """No Result that carries the cancellation channel is dropped or neutralised (unwrap_or_default, ok(), ...): an interrupted
+    sub-query must surface as the error it is instead of turning into an (empty) answer that is then cached."""
+    n_res = 0
+    for b in crate.bodies:
+        if not b.key.startswith(tuple(prefixes)):
+            continue
+        for i, t in b.calls():
+            f = t.get("f")
+            if f is None or "p" in t["dest"]:
+                continue
+            dl = t["dest"]["l"]
+            ty = b.local_ty(dl)
+            if not ty.startswith("std::result::Result<"):
+                continue
+            if not any(ty.rstrip(">").endswith(e) or (", " + e + ">") in ty for e in CANCEL_ERR_TYPES):
+                continue
+            if any(k in ("std::ops::Try::branch", "std::ops::FromResidual::from_residual") for k in callee_keys(f)):
+                continue
+            n_res += 1
+            ok, how = (True, "return") if dl == 0 else result_is_used(b, dl)
+            ctx.ob("result-must-use" + tag, b.key, "result of %s" % strip_generics(f["path"]).split("::")[-1], ok,
+                   where_call(b, i), how)
+    ctx.floor("result-must-use" + tag, "cancellation-carrying Result call sites", n_res, floor)
 
 
 def fan_outs(ctx, crate, tag, prefix="resolvo::solver::", floor=2):
